@@ -2,7 +2,6 @@ package client
 
 import (
 	"fmt"
-	"strings"
 
 	pkts "github.com/energomonitor/bisquitt/packets"
 	pkts1 "github.com/energomonitor/bisquitt/packets1"
@@ -11,10 +10,9 @@ import (
 
 type subscribeTransaction struct {
 	*transaction
-	callback MessageHandlerFunc
 }
 
-func newSubscribeTransaction(client *Client, msgID uint16, callback MessageHandlerFunc) *subscribeTransaction {
+func newSubscribeTransaction(client *Client, msgID uint16) *subscribeTransaction {
 	tLog := client.log.WithTag(fmt.Sprintf("SUBSCRIBE(%d)", msgID))
 	tLog.Debug("Created.")
 	return &subscribeTransaction{
@@ -35,7 +33,6 @@ func newSubscribeTransaction(client *Client, msgID uint16, callback MessageHandl
 			client: client,
 			log:    tLog,
 		},
-		callback: callback,
 	}
 }
 
@@ -83,10 +80,8 @@ func (t *subscribeTransaction) Suback(suback *pkts1.Suback) {
 		return
 	}
 
-	t.client.messageHandlers.store(
-		strings.Split(topicName, "/"),
-		t.callback,
-	)
+	// The callback was installed when the Subscribe call started.
+	t.log.Debug(`Topic "%s" subscribed`, topicName)
 
 	t.Success()
 }
